@@ -120,6 +120,12 @@ RULE = (
     "of every seeded complete program; (h) 32 forms using a variable as key / index at "
     "depth >= 2, filter argument, range bound, loop limit / offset, cycle member, case / "
     "when value x deletion of only that inner variable (110 programs, sync and async); "
+    "(j) 12 lambda-taking filters x 15 scope patterns in which the lambda uses a variable "
+    "that exists only in the inner scope (macro parameter, render/include keyword or bound "
+    "value, with, loop variable) after the same filter name was used outside / by a "
+    "sibling; (k) the bottom of the deletion lattice: 34 programs whose every name is bound "
+    "by a tag from literals / ranges rendered with NO data at all, and an all-data-deleted "
+    "variant of every corpus case and seeded program; "
     "(i) `empty` / `blank` as filter and keyword arguments (ordinary, absent variables "
     "there); "
     "sync and async; each case = one policy triple (Undefined, StrictUndefined, "
@@ -1256,6 +1262,9 @@ def floors(tier: str) -> dict[str, int]:
         "reshaped_data_triples": 2500,
         "set:data_shapes": 9,
         "inner_variable_deletion_triples": 150,
+        "empty_data_complete_triples": 60,
+        "lambda_scope_triples": 300,
+        "all_data_deleted_variants": 300,
         "nil_substitution_checks": 500,
         "set:local_binder_x_use": 600,
         "short_circuit_async": 1000,
@@ -1315,6 +1324,11 @@ def _corpus(r: Runner, spec: dict[str, Any], ctx: Ctx) -> None:
         subs, exh = subsets(cands, rng, upto, nsample)
         if exh and subs:
             ctx.count("cases_with_exhaustive_deletion_subsets")
+        # the bottom of the lattice: no data at all
+        everything = [(k,) for k in data]
+        if sorted(everything) not in [sorted(x) for x in subs]:
+            subs.append(everything)
+        ctx.count("all_data_deleted_variants")
         for sub in subs:
             d2 = delete(data, sub)
             r.case(src, tpls, d2, mode, "default", False, len(sub),
@@ -1387,6 +1401,8 @@ def _gen(r: Runner, spec: dict[str, Any], ctx: Ctx) -> None:
         subs, exh = subsets(cands, rng, upto, nsample)
         if exh and subs:
             ctx.count("cases_with_exhaustive_deletion_subsets")
+        subs.append([(k,) for k in data])  # the bottom of the lattice: no data at all
+        ctx.count("all_data_deleted_variants")
         for sub in subs:
             d2 = delete(data, sub)
             r.case(src, tpls, d2, mode, "shopify", False, len(sub), parts,
@@ -1409,7 +1425,7 @@ def _sweep(r: Runner, spec: dict[str, Any], ctx: Ctx) -> None:
         kind, src, nouse = e["kind"], e["src"], tuple(e["nouse"])
         both = e["both"] or (e["mode"] is None and
                              (tier != "quick" or (pi // spec["n"]) % 4 == 3))
-        data = G.base_data()
+        data = {} if e["empty"] else G.base_data()
         data.update(copy.deepcopy(e["extra"]))
         if e["delete"]:
             data = delete(data, e["delete"])
@@ -1431,6 +1447,10 @@ def _sweep(r: Runner, spec: dict[str, Any], ctx: Ctx) -> None:
                 ctx.seen("data_shapes", "+".join(e["shape"]))
             if kind.startswith("inner:"):
                 ctx.count("inner_variable_deletion_triples")
+            if e["empty"]:
+                ctx.count("empty_data_complete_triples")
+            if kind.startswith("lambda-scope:"):
+                ctx.count("lambda_scope_triples")
             if kind.startswith("nouse:sc-"):
                 ctx.count("short_circuit_" + mode)
             if kind.startswith("local:"):
